@@ -102,6 +102,17 @@ def main(tier, seed, replay=None):
         if c12.has_recursive_inline_union(s) or c12.has_allof_cycle(s) or c12.has_recursive_array_alias(s):
             continue
         corpus.append((f"gen{i}", s))
+    corpus.append(("headers", {
+        "openapi": "3.1.0", "info": {"title": "h", "version": "1"},
+        "paths": {"/a": {"get": {"operationId": "get_a", "parameters": [{"name": "X-Trace-Id", "in": "header", "required": True, "schema": {"type": "string"}},
+                                                                      {"name": "X-Page-Size", "in": "header", "schema": {"type": "integer"}},
+                                                                      {"$ref": "#/components/parameters/Tenant"}],
+                                 "responses": {"200": {"description": "ok", "headers": {"X-Rate": {"schema": {"type": "integer"}}}}}}}},
+        "components": {"parameters": {"Tenant": {"name": "X-Tenant", "in": "header", "schema": {"type": "string"}},
+                                      "Unused": {"name": "X-Unused", "in": "header", "schema": {"type": "string"}}},
+                       "headers": {"X-Comp": {"schema": {"type": "string"}}},
+                       "schemas": {"Cfg": {"type": "object", "required": ["kind"], "properties": {"kind": {"const": "cfg"}, "level": {"type": "integer", "default": 3},
+                                                                                               "name": {"type": "string", "default": "n"}, "mode": {"type": "string", "enum": ["only"]}}}}}}))
     if replay:
         r = json.load(open(replay))
         corpus = [("replay", r["spec"])]
@@ -126,6 +137,7 @@ def main(tier, seed, replay=None):
     by = {j: (r, dp) for j, r, dp in zip(jobs, results, dumps)}
     for ci, (name, spec) in enumerate(corpus):
         ref = None
+        const_by = {}
         for li, (v, h, b, a, m) in enumerate(LATTICE):
             (rc, txt, tf), dump = by[(ci, li)]
             if rc != 0 or "error" in dump:
@@ -143,6 +155,8 @@ def main(tier, seed, replay=None):
                     k = next(k for k in ka if ref[1][k] != core[k])
                     dsc = f"definition of {k} differs: {str(ref[1][k])[:200]} vs {str(core[k])[:200]}"
                 viol.append((name, spec, LATTICE[li], f"{name}: {flags_of(v,h,b,a)} {m} vs {flags_of(*LATTICE[ref[0]][:4])} {LATTICE[ref[0]][4]}: {dsc}"))
+            consts = {it["name"]: (it.get("ty"), it.get("value")) for it in dump.get("items", []) if it["kind"] == "const"}
+            const_by.setdefault((v[0], h, b, m), {})[a] = consts
             bad = visibility_report(dump, v[1])
             consts = [x for x in bad if x[0] == "const"]
             other = [x for x in bad if x[0] != "const"]
@@ -150,9 +164,15 @@ def main(tier, seed, replay=None):
                 known_hits.add("header-constants-always-pub")
             if other:
                 viol.append((name, spec, LATTICE[li], f"{name}: -C {v[0]}: items without the requested visibility: {other[:4]}"))
+        # --all-headers may only ADD header constants: every constant emitted without it must still be there, unchanged
+        for key, pair in const_by.items():
+            if False in pair and True in pair:
+                lost = sorted(k for k, val in pair[False].items() if pair[True].get(k) != val)
+                if lost:
+                    viol.append((name, spec, None, f"{name}: with --all-headers ({key}) the constants {lost[:5]} emitted without the flag are missing or changed"))
     res.counts.update({"evaluations": len(jobs), "distinct_nontrivial": len(corpus), "comparisons": n_cmp, "exhaustive": True,
                        "traces_validated_against_impl": len(jobs),
-                       "rule": "exhaustive over the 3 x 2 x 2 x 2 x {types, client-mod} lattice (visibility, --no-helpers, --enable-builders, --all-headers, mode) for every corpus spec (shipped fixtures + feature-grammar specs): type definitions (names, members, member types, serde/validation attributes, derives minus bon::Builder, builder(..) attributes erased) read back with syn must be identical across all 48 settings; every item must carry exactly the requested visibility"})
+                       "rule": "exhaustive over the 3 x 2 x 2 x 2 x {types, client-mod} lattice (visibility, --no-helpers, --enable-builders, --all-headers, mode) for every corpus spec (shipped fixtures + feature-grammar specs): type definitions (names, members, member types, serde/validation attributes, derives minus bon::Builder, builder(..) attributes erased) read back with syn must be identical across all 48 settings; every item must carry exactly the requested visibility; --all-headers may only add constants"})
     for name, _ in corpus[:4]:
         res.sample({"spec": name, "settings": 48})
     res.cov["trusted_base"] = vlib.COMMON_TRUSTED + ["coq/Model/Decor.v: the token classes a decoration may touch (hand model)", "tools/vtool dump + inventory"]
